@@ -25,6 +25,7 @@ MODULES = {
     "iroh__mapped_addrs": ("iroh", "socket::mapped_addrs::verif_kani"),
     "iroh__ip": ("iroh", "socket::transports::ip::verif_kani"),
     "iroh__endpoint": ("iroh", "endpoint::verif_kani"),
+    "iroh__hooks": ("iroh", "endpoint::hooks::verif_kani"),
 }
 
 COMMON_STUBS = ["n0_error::backtrace_enabled -> false"]
@@ -336,5 +337,20 @@ PROPS["C13"] = {
     "harnesses": [
         H(_SV, "c13_challenge_alphabet", "is_challenge_char(c) iff c in [A-Za-z0-9._-]", "every char"),
         H(_SV, "c13_alphabet_witness", "-", "-", expect="witness"),
+    ],
+}
+
+_HK = "iroh__hooks"
+PROPS["C42"] = {
+    "functions": ["iroh::endpoint::hooks::EndpointHooksList::{push,after_handshake}", "DynEndpointHooks blanket impl (boxing of the hook futures)"],
+    "bounds": "lists of 0, 2 and 3 hooks with every accept/reject pattern and arbitrary error codes; real async fns polled with a no-op waker over always-ready mock hooks",
+    "out": "EndpointHooksList::before_connect (structurally identical loop; its harnesses did not finish within 300 s for reasons not understood - Debug formatting machinery gets explored - and are not registered); MOST of the property: the call sites (connect_with_opts stops before the handshake on a rejection, conn_from_noq_conn closes with the hook's code), the self-connect and empty-ALPN checks - they need a bound Endpoint / a live noq connection (tokio, sockets); by reading",
+    "stubs": [],
+    "assumptions": ["before_connect / after_handshake are given references to leaked uninitialised EndpointAddr / Connection values that neither the list nor the mock hooks read"],
+    "harnesses": [
+        H(_HK, "c42_after_handshake_0_hooks", "no hooks => Accept", "0 hooks"),
+        H(_HK, "c42_after_handshake_2_hooks", "result is the first rejecting hook's error code and reason, else Accept; order as above", "2 hooks, all patterns, any codes"),
+        H(_HK, "c42_after_handshake_3_hooks", "same", "3 hooks", timeout=600),
+        W(_HK, "c42_after_witness"),
     ],
 }
